@@ -178,3 +178,34 @@ Lemma estimated_grid_differs :
   /\ map Qred (grid_ts GSynth ex_late) = [101; 103; 105; 107]%Q
   /\ map Qred (cache_ts ex_late) = [101; 103 + (1 # 2); 105; 107]%Q.
 Proof. repeat split; vm_compute; try reflexivity; exact I. Qed.
+
+(* ------------------------------------------------------------------ the grid used while the scans are built (C01r-F1) *)
+
+Lemma construction_translated :
+  construction_grid_v1 = (3, (1, 100)) /\ construction_grid_v2 = (3, (1, 100))
+  /\ fst construction_grid_v3 = 2 /\ fst construction_grid_v4 = 2.
+Proof. repeat split; reflexivity. Qed.
+
+(* partial: sensors extracted during construction are aligned with the data set's timestamps for v3 / v4 and, for
+   v1 / v2, whenever the quick test for uniform spacing FAILS (the real timestamps are loaded then) *)
+Lemma construction_partial c : cfg_ok c -> zlen (c_ts c) = stored_rows c ->
+  c_fmt c = V3 \/ c_fmt c = V4 \/ quick_test c (1, 100) = false ->
+  construction_ts c = timestamps c (Select.init (c_obs c)).
+Proof.
+  intros Hc Hl H. destruct construction_translated as [C1 [C2 [C3 C4]]]. unfold construction_ts.
+  destruct (c_fmt c) eqn:E.
+  - destruct H as [H|[H|H]]; try discriminate. rewrite C1. cbn [fst snd]. rewrite H. now rewrite timestamps_init.
+  - destruct H as [H|[H|H]]; try discriminate. rewrite C2. cbn [fst snd]. rewrite H. now rewrite timestamps_init.
+  - rewrite C3. now apply cache_is_timestamps.
+  - rewrite C4. now apply cache_is_timestamps.
+Qed.
+
+(* refuted in general: the v2 file [ex_late] passes the quick test, and the grid on which the reference antenna's
+   activity / target and the labels are aligned is not the data set's timestamps *)
+Lemma construction_refuted :
+  exists c, cfg_ok c /\ zlen (c_ts c) = stored_rows c /\ quick_test c (1, 100) = true
+    /\ construction_ts c <> timestamps c (Select.init (c_obs c)).
+Proof.
+  exists ex_late. split; [exact Logic.I|]. split; [reflexivity|]. split; [vm_compute; reflexivity|].
+  intro H. apply (f_equal (map Qred)) in H. vm_compute in H. discriminate.
+Qed.
